@@ -43,6 +43,12 @@ pub struct MC {
 
 /// index of the latest point at-or-before `time` (linear scan)
 pub fn active<T>(v: &[T], time: f64, key: impl Fn(&T) -> f64) -> Option<usize> {
+    // (at or after the last point: the answer of the scan below, without the scan)
+    if let Some(l) = v.last() {
+        if key(l).total_cmp(&time).is_le() {
+            return Some(v.len() - 1);
+        }
+    }
     let mut r = None;
     for (i, p) in v.iter().enumerate() {
         if key(p).total_cmp(&time).is_le() {
@@ -53,6 +59,11 @@ pub fn active<T>(v: &[T], time: f64, key: impl Fn(&T) -> f64) -> Option<usize> {
 }
 fn upsert<T>(v: &mut Vec<T>, p: T, key: impl Fn(&T) -> f64) {
     let t = key(&p);
+    // (appending after the last point: same result as the general case below, without the scan)
+    if v.last().map_or(true, |q| key(q).total_cmp(&t).is_lt()) {
+        v.push(p);
+        return;
+    }
     if let Some(i) = v.iter().position(|q| key(q).total_cmp(&t).is_eq()) {
         v[i] = p;
     } else {
